@@ -1101,6 +1101,13 @@ impl Walrus {
 
                 buf_offset += entry_consumed;
             }
+
+            // A range that was not delivered up to the end of its block has to be the last one:
+            // entries of a later block (or of the tail) must not be returned, and the cursor must
+            // not move past the gap, before the rest of this block has been delivered.
+            if buf_offset < buffer.len() || (!read_plan.is_tail && read_plan.end < read_plan.blk.used) {
+                break;
+            }
         }
 
         // 5) Commit progress (optional)
